@@ -747,7 +747,7 @@ func (c *Conn) readRecordOrCCS(expectChangeCipherSpec bool) error {
 			// 2*MSL 驻留：握手完成后收到旧 epoch CCS，重传最后一 flight
 			if handshakeComplete && !c.dwellDeadline.IsZero() {
 				if time.Now().Before(c.dwellDeadline) && len(c.flightRetransmit) > 0 {
-					c.pconn.WriteTo(c.flightRetransmit, c.remoteAddr)
+					c.writeFlight(c.flightRetransmit)
 					continue
 				}
 				c.dwellDeadline = time.Time{}
@@ -800,7 +800,7 @@ func (c *Conn) readRecordOrCCS(expectChangeCipherSpec bool) error {
 			// 2*MSL 驻留：握手完成后收到重传 Finished，重传最后一 flight
 			if handshakeComplete && !c.dwellDeadline.IsZero() && time.Now().Before(c.dwellDeadline) {
 				if len(c.flightRetransmit) > 0 {
-					c.pconn.WriteTo(c.flightRetransmit, c.remoteAddr)
+					c.writeFlight(c.flightRetransmit)
 				}
 				continue
 			}
@@ -851,10 +851,46 @@ func (c *Conn) flush() (int, error) {
 	if len(c.sendBuf) == 0 {
 		return 0, nil
 	}
-	n, err := c.pconn.WriteTo(c.sendBuf, c.remoteAddr)
+	n, err := c.writeFlight(c.sendBuf)
 	c.sendBuf = nil
 	c.buffering = false
 	return n, err
+}
+
+// writeFlight 发送一组已编码的记录（一个 flight 或其重传快照）。
+// 每个数据报只包含完整的记录，且在记录本身不超过 PMTU 的前提下数据报不超过 PMTU；
+// 超过 PMTU 的 flight 会按记录边界拆分为多个数据报。
+func (c *Conn) writeFlight(buf []byte) (int, error) {
+	pmtu := c.config.PMTU
+	if pmtu <= 0 {
+		pmtu = 1400
+	}
+	total := 0
+	for len(buf) > 0 {
+		end := 0
+		for end < len(buf) {
+			if len(buf)-end < recordHeaderLen {
+				end = len(buf)
+				break
+			}
+			recLen := recordHeaderLen + (int(buf[end+11])<<8 | int(buf[end+12]))
+			if end+recLen > len(buf) {
+				end = len(buf)
+				break
+			}
+			if end > 0 && end+recLen > pmtu {
+				break
+			}
+			end += recLen
+		}
+		n, err := c.pconn.WriteTo(buf[:end], c.remoteAddr)
+		total += n
+		if err != nil {
+			return total, err
+		}
+		buf = buf[end:]
+	}
+	return total, nil
 }
 
 // =============================================================================
